@@ -14,9 +14,6 @@ pub struct ExMessage(bgp::Message);
 #[verifier::external_type_specification]
 pub struct ExOpen(bgp::Open);
 
-#[verifier::external_type_specification]
-#[verifier::external_body]
-pub struct ExUpdate(bgp::Update);
 
 #[verifier::external_type_specification]
 pub struct ExNotification(Notification);
